@@ -215,13 +215,19 @@ def remLimbWithReciprocalWide (lo hi : List Nat) (rc : Reciprocal) : Nat :=
   r >>> rc.shift
 
 /-- boxed `rem_limb_with_reciprocal` (src/uint/boxed/div_limb.rs): shifts on the fly.
-    `revs` = limbs most significant first. -/
-def boxedRemLimbLoop (rc : Reciprocal) (lshift rshift nz : Nat) : List Nat → Nat → Nat
+    `revs` = limbs most significant first.  The loop is written over an abstract step
+    `f hi lo` (= the remainder `div2by1(hi, lo, reciprocal).1` of the 2-by-1 division), so that its
+    defining equations stay small (no unfolding of `div2by1` in definitional checks). -/
+def boxedRemLimbLoopG (f : Nat → Nat → Nat) (lshift rshift nz : Nat) : List Nat → Nat → Nat
   | [], hi => hi
-  | [u0], hi => (div2by1 hi ((u0 <<< lshift) % B) rc).2
+  | [u0], hi => f hi ((u0 <<< lshift) % B)
   | uj :: ujm1 :: rest, hi =>
-    let lo := ((uj <<< lshift) % B) ||| ((ujm1 >>> rshift) &&& nz)
-    boxedRemLimbLoop rc lshift rshift nz (ujm1 :: rest) (div2by1 hi lo rc).2
+    boxedRemLimbLoopG f lshift rshift nz (ujm1 :: rest)
+      (f hi (((uj <<< lshift) % B) ||| ((ujm1 >>> rshift) &&& nz)))
+
+/-- the loop of `rem_limb_with_reciprocal` with the actual step `div2by1(hi, lo, reciprocal).1` -/
+def boxedRemLimbLoop (rc : Reciprocal) (lshift rshift nz : Nat) : List Nat → Nat → Nat :=
+  boxedRemLimbLoopG (fun hi lo => (div2by1 hi lo rc).2) lshift rshift nz
 
 def boxedRemLimbWithReciprocal (u : List Nat) (rc : Reciprocal) : Nat :=
   let lshift := rc.shift
